@@ -10,7 +10,9 @@ NOTE = ("Trusted base: Lean 4.33 kernel; axioms propext / Classical.choice / Quo
 # id -> (technique, level text, design ref)
 CORR = (" The model is tied to the real crate on every run by executing both (the crate inside a real Bevy App through its public API, "
         "the model through its compiled Lean definitions) on the committed corpus, directed/exhaustive enumerators and seeded random "
-        "scenarios of this property's stream and comparing the traces byte for byte on the fields the property determines.")
+        "scenarios of this property's stream; the traces must be identical on every fact the property's function consumes or produces "
+        "(tools/facts.py): a difference in a produced fact under equal consumed facts is reported as a failing input, a difference in a "
+        "consumed fact as a broken correspondence (no-failing-input-found).")
 
 CLAIMED = {
     "C01": ("Lean 4 theorems (extracted transition table checked against the documented one by decide; unfolding of the per-action update; "
